@@ -410,6 +410,7 @@ def run(ctx: Ctx) -> None:
 
 M = "plugins/manu.py"
 MUTANTS = [
+    ("worker-death-swallowed", "plugins/runner.py", "asyncio.wait_for(asyncio.gather(*to_traverse), self.job.timeout or None)", "asyncio.wait_for(asyncio.gather(*to_traverse, return_exceptions=True), self.job.timeout or None)", "8"),
     ("unset-default-overrides-generic", "intertest_setup.py", "        state_mode = vm_op_mode if vm_op_mode in setup_dict else op_mode\n        if state_mode not in setup_dict:", "        if vm_op_mode not in setup_dict:", "6"),
     ("P-unset-default-explicit", "intertest_setup.py", "        state_mode = vm_op_mode if vm_op_mode in setup_dict else op_mode\n        if state_mode not in setup_dict:", "        if vm_op_mode not in setup_dict and op_mode not in setup_dict:", None),
     ("shutdown-boots", "intertest_setup.py", "(\"Shutting down\", \"stop\", \"shutdown\", \"Shutdown\")", "(\"Shutting down\", \"start\", \"shutdown\", \"Shutdown\")", "m"),
